@@ -413,6 +413,9 @@ ITEM_SHAPES = [
     "struct S;", "struct S {{}}", "struct S();", "struct S<T>(::core::marker::PhantomData<T>);", "enum E {{}}", "enum E<T> {{ {v}V({f}T,), }}",
     "pub(crate) struct S {{ pub(crate) {f}a: u8, pub(self) b: u8 }}", "pub(in crate) enum E {{ {v}V {{ {f}r#type: u8, }}, }}",
     "union U<T: Copy> where {{ {f}a: T, b: u8 }}", "union U<> {{ {f}a: u8, b: u8, }}", "struct S<T> where T: Sized, {{ {f}a: T, }}",
+    "union U<T: Copy> where T: Copy, {{ {f}a: T, b: u8 }}", "union U<T> where T: Copy, T: Sized, {{ {f}a: T }}", "enum E<T> where T: Sized, {{ {v}V({f}T) }}",
+    "#[rustfmt::skip] enum E {{ {v}A, B(u8) }}", "#[rustfmt::skip] #[repr(u8)] enum E {{ {v}A = 1, B = 0 }}", "#[rustfmt::skip] struct S {{ {f}a: u8 }}",
+    "#[r#repr(u8)] enum E {{ {v}A = 1, B = 0 }}", "struct S {{ #[rustfmt::skip] {f}a: u8 }}", "union U {{ #[rustfmt::skip] {f}a: u8, b: u8 }}",
     "enum E<T> where T: Sized {{ {v}V = 1, }}", "enum E {{ {v}A = 1, B = 2, }}", "struct S<'a,> where 'a: 'a {{ {f}a: &'a u8 }}",
 ]
 
